@@ -2,6 +2,7 @@ SPECIFICATION Spec
 CONSTANTS
   ReaderInputs <- MCReaderInputs
   WriterInputs <- MCWriterInputs
+  WriterDigits = 3
   RejectNegative = TRUE
   OutCap = 16
   Emit = TRUE
